@@ -5,6 +5,7 @@ import (
 	"fmt"
 	"hash/fnv"
 	"math"
+	"reflect"
 	"unsafe"
 
 	"github.com/yaricom/goNEAT/v4/neat"
@@ -123,9 +124,31 @@ func snapGenome(g *genetics.Genome) *SnapGenome {
 			m.Outs = append(m.Outs, l.OutNode.Id)
 			m.OutW = append(m.OutW, fbits(l.ConnectionWeight))
 		}
+		// the gene's own list must be its input nodes followed by its output nodes (that is how it is built); a snapshot does
+		// not carry the list further (harness code edits Ins / Outs of snapshots)
+		if io := controlGeneIO(cg); io != nil && !intsEqual(io, append(append([]int{}, m.Ins...), m.Outs...)) {
+			s.Broken = fmt.Sprintf("control gene %d lists %v as its input / output nodes, its links join %v and %v", m.CtrlId, io, m.Ins, m.Outs)
+		}
 		s.Modules = append(s.Modules, m)
 	}
 	return s
+}
+
+func controlGeneIO(cg *genetics.MIMOControlGene) (ids []int) {
+	defer func() {
+		if recover() != nil {
+			ids = nil
+		}
+	}()
+	f := reflect.ValueOf(cg).Elem().FieldByName("ioNodes")
+	if !f.IsValid() {
+		return nil
+	}
+	ids = []int{}
+	for i := 0; i < f.Len(); i++ {
+		ids = append(ids, int(f.Index(i).Elem().FieldByName("Id").Int()))
+	}
+	return ids
 }
 
 func u64sEqual(a, b []uint64) bool {
